@@ -183,6 +183,51 @@ def ts_construct(s: int, us: int, off_min: int) -> bool:
     return H.done(is_dt(d) and off_us(d) == off_min * 60 * US and eq_us(inst(d), s * US + us))
 
 
+def offset_history(s: int, o1: int, o2: int, how: int) -> bool:
+    """
+    pre: -1440 < o1 < 1440 and -1440 < o2 < 1440 and WALL_LO <= s * US <= WALL_HI and 0 <= how < 3
+    pre: H.fresh(s, o1, o2, how)
+    post: _
+    """
+    # what the process built before is part of the input: a value at offset o1 first, then the one under test at o2
+    # (zones must not be remembered by anything coarser than their offset)
+    a, b = mk_ts(o1 * 60 * US), mk_ts(o2 * 60 * US)
+    if how == 0:
+        yq.ev('datetime($s, $a)', s=s, a=a)
+    elif how == 1:
+        yq.ev('datetime(1970, 1, 1, offset => $a)', a=a)
+    else:
+        yq.ev('datetime($s, $a).utc.offset', s=s, a=a)
+    d = yq.ev('datetime($s, $b)', s=s, b=b)
+    return H.done(is_dt(d) and off_us(d) == o2 * 60 * US and inst(d) == s * US)
+
+
+HIST_OFFSETS = [(0,), (60,), (90,), (30,), (-30,), (-90,), (-60,), (330,), (345,), (300,), (1439,), (1380,), (-1439,), (1,), (59,)]
+
+
+def real_offset_history(i: int, j: int) -> bool:
+    """
+    pre: 0 <= i < len(HIST_OFFSETS) and 0 <= j < len(HIST_OFFSETS)
+    post: _
+    """
+    # the same on REAL datetime/tzoffset objects: offsets that share their whole hour, one after the other
+    o1, o2 = HIST_OFFSETS[i][0], HIST_OFFSETS[j][0]
+    with H.NoTracing():
+        S.uninstall()
+        try:
+            TD = datetime.timedelta
+            yq.ev('datetime(1000, $a)', a=TD(minutes=int(o1)))
+            d = yq.ev('datetime(1000, $b)', b=TD(minutes=int(o2)))
+            e = yq.ev('datetime(2000, 2, 29, 12, offset => $b)', b=TD(minutes=int(o2)))
+            ok = (d.utcoffset() == TD(minutes=int(o2)) and
+                  d == datetime.datetime(1970, 1, 1, 0, 16, 40, tzinfo=datetime.timezone.utc) and
+                  e.utcoffset() == TD(minutes=int(o2)) and e.replace(tzinfo=None) == datetime.datetime(2000, 2, 29, 12))
+        finally:
+            if not REAL:
+                S.install()
+    return H.done(ok)
+
+
 def ts_inverse(wall: int, off_min: int, naive: bool, loc: int = 0) -> bool:
     """
     pre: dt_ok(wall, off_min) and part_ok(off_min, naive)
@@ -608,6 +653,11 @@ def conditions(tier, seed):
         out.append({'name': name, 'func': func, 'timeout': timeout, 'param': param, 'bounds': bounds})
     add('ts_roundtrip', 'ts_roundtrip', 'timestamp: all integer seconds in years 1..9999; offset all minutes')
     add('ts_construct', 'ts_construct', 'timestamp s + us/10^6 (exact rational), offset all minutes')
+    add('offset_history', 'offset_history', 'a datetime built at offset o1 (three ways), then datetime(s, o2): both offsets '
+        'all minutes in (-24h,24h), s all integer seconds', timeout=t * 2)
+    add('real_offset_history', 'real_offset_history', 'selection: %d x %d REAL offsets (pairs sharing their whole hour, '
+        'extremes), one built after the other in one process; each path is one concrete evaluation' % (len(HIST_OFFSETS), len(HIST_OFFSETS)),
+        timeout=120)
     add('ts_inverse', 'ts_inverse', dom)
     add('utc_same_instant', 'utc_same_instant', dom)
     add('timestamp_value', 'timestamp_value', dom)
@@ -846,6 +896,15 @@ def describe(f, p, vals, err):
             obs = {x: yq.outcome(x, d=d) for x in ('$d.utc', '$d.timestamp')}
             return '%s: d=%r: %s%s' % (f, d, '; '.join('%s -> %r' % kv for kv in obs.items()),
                                        ' (%r)' % err if err else '')
+        if f in ('offset_history', 'real_offset_history'):
+            if f == 'real_offset_history':
+                o1, o2, sec = HIST_OFFSETS[vals['i']][0], HIST_OFFSETS[vals['j']][0], 1000
+            else:
+                o1, o2, sec = vals['o1'], vals['o2'], vals['s']
+            a, b = mk_ts(o1 * 60 * US), mk_ts(o2 * 60 * US)
+            first = yq.outcome('datetime($s, $a)', s=sec, a=a)
+            return 'after building %r in the same process, datetime(%d, %r) -> %r (asked for offset %d min)' % (
+                first, sec, b, yq.outcome('datetime($s, $b)', s=sec, b=b), o2)
         if f == 'ts_roundtrip':
             o = mk_ts(vals['off_min'] * 60 * US)
             return 'datetime(%d, %r).timestamp -> %r, expected %d' % (
